@@ -1,5 +1,32 @@
-(* STUB: Impl model of rsdp.rs -- to be written *)
-From Coq Require Import NArith List.
+(* Impl model of rsdp.rs *)
+From Coq Require Import NArith List Bool.
 From ACPI Require Import Lib.Bytes Lib.Sx Lib.Machine Impl.Checksum Impl.Table Impl.Fields Impl.Run.
 Import ListNotations.
-Definition rsdp_case (md : mode) (c : sx) : list ev := [EvPanic].
+Open Scope N_scope.
+
+Definition RSDP_SIG : list N := [82; 83; 68; 32; 80; 84; 82; 32].      (* b"RSD PTR " *)
+
+(* struct Rsdp (packed, 36 bytes): signature[8] checksum oem_id[6] revision _rsdt_addr length xsdt_addr
+   extended_checksum _reserved[3] *)
+Record rsdp := { rs_cks : N; rs_oem : list N; rs_xsdt : N; rs_ext : N }.
+
+Definition rsdp_bytes (r : rsdp) : list N :=
+  RSDP_SIG ++ b1 (rs_cks r) ++ rs_oem r ++ b1 2 ++ d4 0 ++ d4 36 ++ q8 (rs_xsdt r) ++ b1 (rs_ext r) ++ [0; 0; 0].
+
+(* Rsdp::new(oem_id, xsdt_addr): both checksums 0, then
+   rsdp.checksum = generate_checksum(&rsdp.as_bytes()[0..20]); rsdp.extended_checksum = generate_checksum(rsdp.as_bytes()) *)
+Definition rsdp_make (oem : list N) (xsdt : N) : rsdp :=
+  let r0 := {| rs_cks := 0; rs_oem := oem; rs_xsdt := xsdt; rs_ext := 0 |} in
+  let r1 := {| rs_cks := generate_checksum (firstn 20 (rsdp_bytes r0)); rs_oem := oem; rs_xsdt := xsdt; rs_ext := 0 |} in
+  {| rs_cks := rs_cks r1; rs_oem := oem; rs_xsdt := xsdt; rs_ext := generate_checksum (rsdp_bytes r1) |}.
+
+Definition rsdp_new (c : sx) : option rsdp :=
+  match c with
+  | SL [o; SA xsdt] => do oem <- sx_arr 6 o; Some (rsdp_make oem xsdt)
+  | _ => None
+  end.
+
+Definition rsdp_step (md : mode) (r : rsdp) (o : sx) : option (rsdp * list ev) := None.
+
+Definition rsdp_case (md : mode) (c : sx) : list ev :=
+  run_history (fun r => Some (rsdp_bytes r)) (rsdp_step md) rsdp_new c.
